@@ -159,7 +159,7 @@ PROPS = {
         "components": ["rabbit"],
         "required_theorems": ["PgBifrost.Props.C13.rabbit_written_all_confirmed", "PgBifrost.Props.C13.rabbit_written_all_confirmed_run",
                               "PgBifrost.Props.C13.rabbit_retry_republishes_unconfirmed", "PgBifrost.Props.C13.rabbit_no_wedge_on_close",
-                              "PgBifrost.Props.C13.rabbit_spec_ok_of_fixed"],
+                              "PgBifrost.Props.C13.rabbit_spec_ok_of_fixed", "PgBifrost.Props.C13.rabbit_attempt_as_in_source"],
         "assumptions": ["confirmations arrive in tag order per channel; a close drops the unconsumed ones",
                         "goroutine interleaving of closeHandler and worker at the granularity of the worker's log lines / Publish calls"],
         "timeout": 3000,
